@@ -359,6 +359,9 @@ type XStyle struct {
 	// it on either side of '='); set by the caller from a side lane. Below the 1538 bytes the
 	// reader buffers.
 	AttrPad int
+	// RootEnd > 0: the packet ends with the root end tag written as '</x:xmpmeta S>' (variant
+	// RootEnd-1) and no trailer; set by the caller from a side lane
+	RootEnd int
 	Seed    uint64
 }
 
@@ -583,6 +586,14 @@ func (r *XRecord) Serialise(l *core.Lane, st XStyle) []byte {
 		sb.WriteString("</rdf:Description" + gt())
 	}
 	sb.WriteString(ws(0) + "</rdf:RDF" + gt() + ws(0) + "</x:xmpmeta>")
+	if st.RootEnd > 0 {
+		// the root end tag written with white space before '>' and nothing, or a few bytes of white
+		// space, behind it: the packet is complete where the stream ends
+		t := sb.String()
+		sb.Reset()
+		sb.WriteString(t[:len(t)-1] + []string{" ", "\n", "  ", "\t \n"}[(st.RootEnd-1)%4] + ">" + []string{"", "", "\n", " \n"}[(st.RootEnd-1)/4%4])
+		return []byte(sb.String())
+	}
 	if f.Intn(2) == 0 {
 		sb.WriteString(ws(0) + "<?xpacket end='w'?>")
 	}
